@@ -98,6 +98,7 @@ class Driver:
         self.lines = {}
         self.nlines = 0
         self.now = 1700000000
+        self.nows = {str(self.now)}
         self.alive = True
         # clock as seen from the handlers
         drv = self
@@ -111,6 +112,17 @@ class Driver:
         self.gw = None
         self.pers_started = False
         self._new_gateway()
+
+    def _loop(self):
+        import asyncio
+        if getattr(self, "_evloop", None) is None:
+            self._evloop = asyncio.new_event_loop()
+        return self._evloop
+
+    def close(self):
+        if getattr(self, "_evloop", None) is not None:
+            self._evloop.close()
+            self._evloop = None
 
     # ------------------------------------------------------------ construction
     def _new_gateway(self):
@@ -173,7 +185,7 @@ class Driver:
         special = None
         if hdr[2] == 4 and hdr[4] in (1, 3):
             special = self._stream_token(hdr[4], payload)
-        elif hdr[2] == 3 and hdr[4] == 1 and payload == str(self.now):
+        elif hdr[2] == 3 and hdr[4] == 1 and payload in self.nows:
             special = "@now"
         if not canon:
             return hdr + ["~~noncanonical"]
@@ -288,6 +300,7 @@ class Driver:
         """A complete line arrives (what BaseMySensorsProtocol.handle_line does)."""
         if now is not None:
             self.now = now
+            self.nows.add(str(now))
         rec = self.line_rec(line)
         raised = None
         try:
@@ -329,7 +342,10 @@ class Driver:
     def update_fw(self, nids, ftype, fver, image_path=None):
         raised = None
         try:
-            self.gw.update_fw(nids, ftype, fver, image_path)
+            if self.flavour == "async":
+                self._loop().run_until_complete(self.gw.update_fw(nids, ftype, fver, image_path))
+            else:
+                self.gw.update_fw(nids, ftype, fver, image_path)
         except Exception as exc:  # pylint: disable=broad-except
             raised = type(exc).__name__
         lst = nids if isinstance(nids, list) else [nids]
